@@ -120,6 +120,9 @@ func (pool *CollectorPool) waitStop() {
 	}
 
 	pool.ctxCanceller()
+	// Accept() does not watch the context: close the listener so that listenRoutine
+	// gets an error, sees the cancelled context and leaves.
+	pool.listener.Close()
 	pool.wg.Wait()
 	atomic.StoreInt32(&pool.stopped, 1)
 }
